@@ -239,7 +239,7 @@ func runFSModel(c *Ctx) error {
 		c.Out.Emit(&lib.Case{Group: "fsmodel", Class: fmt.Sprintf("fsmodel/ops%d", (nops+1)/2*2), Nontrivial: nerr > 0 && nerr < len(ops),
 			Input: map[string]interface{}{"init": init.summary(), "ops": ops, "subseed": i},
 			Obs:   map[string]interface{}{"results": results, "final": final.summary()},
-			Coq:   fmt.Sprintf("($ID, %s, %s, %s, %s)", coqTree(init), lib.CoqList(ops), lib.CoqList(results), coqTree(final))})
+			Coq:   fmt.Sprintf("(FC $ID %s %s %s %s)", coqTree(init), lib.CoqList(ops), lib.CoqList(results), coqTree(final))})
 		removeAll(top)
 	}
 	return nil
